@@ -169,10 +169,23 @@ def c13_check(sk: Any, prov: Any, ctx: Optional[Ctx], sel: Dict[str, int], info:
     return problems
 
 
+def with_shared_ids(root: Any) -> Any:
+    """Give equal leaves the same id, as rewrites do when they put clones of one subtree into the result
+    (clone() keeps ids): 'trees built by rewrites' contain several nodes with one id."""
+    seen: Dict[Tuple[str, str], str] = {}
+    for n in preorder(root):
+        if kind(n) == "var":
+            key = ("var", str(n.identifier))
+            n.id = seen.setdefault(key, n.id)
+    return root
+
+
 def cfr_check(sk: Any, prov: Any, sel: Dict[str, int]) -> List[Problem]:
     """clone_from_root through an inner node."""
     problems: List[Problem] = []
     root2 = build(sk, prov)
+    if sel.get("dup"):
+        root2 = with_shared_ids(root2)
     nodes2 = preorder(root2)
     inner = nodes2[sel["inner"] % len(nodes2)]
     want2 = csig(root2)
@@ -227,7 +240,7 @@ def worker(item: Any) -> Dict[str, Any]:
         if part_no == 1:
             sel.update(mut=ctx.choose(len(MUTATIONS), "mut"), side=ctx.choose(2, "side"), j=ctx.choose(n, "j"))
         elif part_no == 2:
-            sel.update(inner=ctx.choose(n, "inner"))
+            sel.update(inner=ctx.choose(n, "inner"), dup=ctx.choose(2, "dup"))
         info: Dict[str, Any] = {}
         roles = slot_roles(sk)
         if part_no != 0:
@@ -306,6 +319,7 @@ def run(tier: str) -> int:
     rep.bounds = {"alphabet": "const/x(/y), + - * / ^, neg sgn abs fact each with the operand on the right and on the left",
                   "size": f"every tree with <= {n} nodes ({len(sks)}), built through the public constructors",
                   "examples": f"{len(extra)} rule example inputs (repeated kinds, deep chains)",
+                  "duplicate_ids": "clone_from_root also on trees whose equal variables share one id (as after a rewrite that clones a subtree)",
                   "selectors": "inner node, mutation kind (payload/identifier/detach-left/detach-right/swap), mutated copy, "
                                "mutated node: all values explored per tree",
                   "payloads": "unbounded reals (solver variables); factorial operands 0..5"}
